@@ -319,8 +319,14 @@ def judge(ck, flex, scratch, cases, results, stats, classify=None):
             stats['inconclusive'] = stats.get('inconclusive', 0) + 1
 
 
+_SHRUNK = [0]
+
+
 def report_failing_input(ck, flex, scratch, case, sc, w, note, classify=None):
     try:
+        if _SHRUNK[0] >= 3 or len(ck.violations) >= 8:
+            raise RuntimeError("shrink budget used")
+        _SHRUNK[0] += 1
         w2 = shrink_input(flex, scratch, case, sc, w)
         c2 = shrink_rules(flex, scratch, case, sc, w2)
         w3 = shrink_input(flex, scratch, c2, sc, w2) if c2 is not case else w2
@@ -329,6 +335,8 @@ def report_failing_input(ck, flex, scratch, case, sc, w, note, classify=None):
     key = classify(c2, 'token', note) if classify else None
     if key is None:
         key = "tokens:" + prog_key(c2) + ":" + bytes(w3).hex()[:40]
+    if len(ck.violations) >= 8:
+        return
     # what the scanner did and what the manual says
     wd = os.path.join(scratch.sub("final"), prog_key(c2))
     res = tokcase.eval_case(flex, wd, c2['prog'], c2['text'], c2['flex_opts'], [w3], check_lockstep=False, run_scs=[sc],
